@@ -238,7 +238,11 @@ static void dump(struct conf_node_object *o, const char *pfx)
             enc(&cv, s->value);
             switch (s->subtype) {
             case CONF_STRING_PLAIN:
-                char_vector_append_string(&cv, s->parsed.p_string == s->value ? " P="
+                /* the typed view of a plain string must deliver the same text (same buffer or a copy:
+                 * that is the implementation's business) */
+                char_vector_append_string(&cv, (s->parsed.p_string == s->value
+                                                || (s->parsed.p_string && s->value
+                                                    && !strcmp(s->parsed.p_string, s->value))) ? " P="
                                                : s->parsed.p_string ? " P!" : " P0");
                 break;
             case CONF_STRING_FLOAT:
